@@ -563,6 +563,83 @@ func (x *Exec) assignStmt(fr *Frame, c *Ctx, s *ast.AssignStmt) {
 	}
 }
 
+// setField writes v into the field reached from cont (of type contT) by the index path idx.  When cont
+// is a struct VALUE the updated value is returned (true) and the caller stores it back where it
+// came from; otherwise the static or heap location is written here.
+func (x *Exec) setField(c *Ctx, cont Value, contT types.Type, idx []int, v Value, l *ast.SelectorExpr) (Value, bool) {
+	st := c.st
+	contT = types.Unalias(contT)
+	if p, ok := contT.Underlying().(*types.Pointer); ok {
+		contT = p.Elem()
+	}
+	s, ok := types.Unalias(contT).Underlying().(*types.Struct)
+	if !ok {
+		panic(engineErr("%s: assignment through non-struct %s", x.pos(l.Pos()), contT))
+	}
+	f := s.Field(idx[0])
+	if len(idx) > 1 {
+		inner, _ := c.walkPath(cont, contT, idx[:1])
+		if inner.Kind == KStruct {
+			// embedded by value: update the copy, then write the whole field back
+			ni, _ := x.setField(c, inner, f.Type(), idx[1:], v, l)
+			return x.setField(c, cont, contT, idx[:1], ni, l)
+		}
+		return x.setField(c, inner, f.Type(), idx[1:], v, l)
+	}
+	v = c.coerce(v, f.Type())
+	switch cont.Kind {
+	case KPtr:
+		path := cont.Path + f.Name()
+		if v.Kind == KStruct {
+			x.assignStaticStruct(c, path+".", v)
+			return cont, false
+		}
+		if v.Kind == KPtr {
+			return cont, false // aliasing field (Context.Config): fixed by the alias declaration
+		}
+		x.noteWrite(c, "S:"+path, l.Pos())
+		x.storeTo(st, "S:"+path, v)
+	case KScalar:
+		if strings.HasPrefix(cont.Path, "H:") {
+			h := x.load(st, cont.Path, contT)
+			nh := h
+			nh.Fields = map[string]Value{}
+			for n, fv := range h.Fields {
+				nh.Fields[n] = fv
+			}
+			hf := h.Fields[f.Name()]
+			nf := zip2(hf, liftLike(hf, v), func(arr, val *Term) *Term { return Store(arr, cont.S, val) })
+			nf.T = hf.T
+			nh.Fields[f.Name()] = nf
+			c.oblige("nil", exprText(l.X), Neq(cont.S, Nil), l.Pos())
+			x.storeTo(st, cont.Path, nh)
+			return cont, false
+		}
+		if _, isId := unparen(l.X).(*ast.Ident); isId && cont.T != nil {
+			if _, isPtr := types.Unalias(cont.T).Underlying().(*types.Pointer); !isPtr && !types.IsInterface(cont.T) {
+				panic(engineErr("%s: assignment to a field of %s, a copy of a boxed struct value", x.pos(l.Pos()), exprText(l.X)))
+			}
+		}
+		key := "H:" + typeName(contT) + "." + f.Name()
+		h := x.load(st, key, f.Type())
+		nv := zip2(h, liftLike(h, v), func(arr, val *Term) *Term { return Store(arr, cont.S, val) })
+		nv.T = f.Type()
+		c.oblige("nil", exprText(l.X), Neq(cont.S, Nil), l.Pos())
+		x.storeTo(st, key, nv)
+	case KStruct:
+		nc := cont
+		nc.Fields = map[string]Value{}
+		for n, fv := range cont.Fields {
+			nc.Fields[n] = fv
+		}
+		nc.Fields[f.Name()] = v
+		return nc, true
+	default:
+		panic(engineErr("%s: assignment through %s not supported", x.pos(l.Pos()), exprText(l.X)))
+	}
+	return cont, false
+}
+
 // assign stores v into the location denoted by lhs.
 func (x *Exec) assign(c *Ctx, lhs ast.Expr, v Value) {
 	st := c.st
@@ -590,59 +667,8 @@ func (x *Exec) assign(c *Ctx, lhs ast.Expr, v Value) {
 			panic(engineErr("%s: assignment to %s not supported", x.pos(l.Pos()), exprText(l)))
 		}
 		base := c.eval(l.X)
-		idx := sel.Index()
-		cont, contT := c.walkPath(base, sel.Recv(), idx[:len(idx)-1])
-		contT = types.Unalias(contT)
-		if p, ok := contT.Underlying().(*types.Pointer); ok {
-			contT = p.Elem()
-		}
-		s := types.Unalias(contT).Underlying().(*types.Struct)
-		f := s.Field(idx[len(idx)-1])
-		v = c.coerce(v, f.Type())
-		switch cont.Kind {
-		case KPtr:
-			path := cont.Path + f.Name()
-			if v.Kind == KStruct {
-				x.assignStaticStruct(c, path+".", v)
-				return
-			}
-			if v.Kind == KPtr {
-				return // aliasing field (Context.Config): fixed by the alias declaration
-			}
-			x.noteWrite(c, "S:"+path, l.Pos())
-			x.storeTo(st, "S:"+path, v)
-		case KScalar:
-			if strings.HasPrefix(cont.Path, "H:") {
-				h := x.load(st, cont.Path, contT)
-				nh := h
-				nh.Fields = map[string]Value{}
-				for n, fv := range h.Fields {
-					nh.Fields[n] = fv
-				}
-				hf := h.Fields[f.Name()]
-				nf := zip2(hf, liftLike(hf, v), func(arr, val *Term) *Term { return Store(arr, cont.S, val) })
-				nf.T = hf.T
-				nh.Fields[f.Name()] = nf
-				c.oblige("nil", exprText(l.X), Neq(cont.S, Nil), l.Pos())
-				x.storeTo(st, cont.Path, nh)
-				return
-			}
-			if _, isId := unparen(l.X).(*ast.Ident); isId && cont.T != nil {
-				if _, isPtr := types.Unalias(cont.T).Underlying().(*types.Pointer); !isPtr && !types.IsInterface(cont.T) {
-					panic(engineErr("%s: assignment to a field of %s, a copy of a boxed struct value", x.pos(l.Pos()), exprText(l.X)))
-				}
-			}
-			key := "H:" + typeName(contT) + "." + f.Name()
-			h := x.load(st, key, f.Type())
-			nv := zip2(h, liftLike(h, v), func(arr, val *Term) *Term { return Store(arr, cont.S, val) })
-			nv.T = f.Type()
-			c.oblige("nil", exprText(l.X), Neq(cont.S, Nil), l.Pos())
-			x.storeTo(st, key, nv)
-		case KStruct:
-			cont.Fields[f.Name()] = v
-			x.assign(c, l.X, cont)
-		default:
-			panic(engineErr("%s: assignment through %s not supported", x.pos(l.Pos()), exprText(l.X)))
+		if nb, isValue := x.setField(c, base, sel.Recv(), sel.Index(), v, l); isValue {
+			x.assign(c, l.X, nb)
 		}
 	case *ast.IndexExpr:
 		cur := c.eval(l.X)
